@@ -72,31 +72,107 @@ def template(route: Sequence[Sequence[Any]]) -> str:
     return "".join(out)
 
 
+class _Index:
+    """Per-path tables that make 'where may a placeholder of this type end' cheap."""
+
+    def __init__(self, path: str) -> None:
+        n = len(path)
+        self.path = path
+        self.n = n
+        self.digit_end = [0] * (n + 1)  # end of the run of ASCII digits starting at pos
+        self.seg_end = [0] * (n + 1)  # position of the next "/" at or after pos (or n)
+        self.digit_end[n] = n
+        self.seg_end[n] = n
+        for pos in range(n - 1, -1, -1):
+            self.digit_end[pos] = self.digit_end[pos + 1] if path[pos] in ASCII_DIGITS else pos
+            self.seg_end[pos] = pos if path[pos] == "/" else self.seg_end[pos + 1]
+
+    def intervals(self, typ: Optional[str], pos: int) -> List[Tuple[int, int]]:
+        """Inclusive intervals [lo, hi] of end positions e such that path[pos:e] is in the language."""
+        typ = typ or "str"
+        n, path = self.n, self.path
+        if typ == "str":
+            return [(pos + 1, self.seg_end[pos])] if self.seg_end[pos] > pos else []
+        if typ == "any":
+            return [(pos, n)]
+        if typ == "int":
+            de = self.digit_end[pos]
+            return [(pos + 1, de)] if de > pos else []
+        if typ == "decimal":
+            de = self.digit_end[pos]
+            if de == pos:
+                return []
+            out = [(pos + 1, de)]
+            if de < n and path[de] == ".":
+                de2 = self.digit_end[de + 1]
+                if de2 > de + 1:
+                    out.append((de + 2, de2))
+            return out
+        if typ == "uuid":
+            return [(pos + 36, pos + 36)] if pos + 36 <= n and in_language("uuid", path[pos:pos + 36]) else []
+        if typ == "date":
+            return [(pos + 10, pos + 10)] if pos + 10 <= n and in_language("date", path[pos:pos + 10]) else []
+        raise ValueError(typ)
+
+
+def _viable(route: Sequence[Sequence[Any]], ix: _Index) -> List[List[bool]]:
+    """viable[i][pos]: tokens i.. can consume exactly path[pos:].  O(len(route) * len(path))."""
+    n, path = ix.n, ix.path
+    nxt = [False] * n + [True]
+    layers = [nxt]
+    for tok in reversed(list(route)):
+        cur = [False] * (n + 1)
+        if tok[0] == "lit":
+            lit = tok[1]
+            for pos in range(n + 1):
+                e = pos + len(lit)
+                cur[pos] = e <= n and nxt[e] and path.startswith(lit, pos)
+        else:
+            pref = [0] * (n + 2)  # pref[k] = number of viable next positions < k
+            for k in range(n + 1):
+                pref[k + 1] = pref[k] + (1 if nxt[k] else 0)
+            for pos in range(n + 1):
+                for lo, hi in ix.intervals(tok[2], pos):
+                    if hi >= lo and pref[hi + 1] - pref[lo] > 0:
+                        cur[pos] = True
+                        break
+        layers.append(cur)
+        nxt = cur
+    layers.reverse()
+    return layers
+
+
 def decompositions(route: Sequence[Sequence[Any]], path: str, limit: int = 64) -> List[Dict[str, str]]:
     """All ways the whole path can be split so that literals match verbatim and every placeholder
-    gets a string of its language (up to `limit` of them)."""
+    gets a string of its language (up to `limit` of them, in order of increasing split points).
+    Dead branches are pruned with a suffix-viability table, so a path that does not match costs
+    O(tokens x length) whatever the number of adjacent placeholders."""
     found: List[Dict[str, str]] = []
+    ix = _Index(path)
+    viable = _viable(route, ix)
+    if not viable[0][0]:
+        return found
 
     def rec(i: int, pos: int, acc: Dict[str, str]) -> None:
         if len(found) >= limit:
             return
         if i == len(route):
-            if pos == len(path):
-                found.append(dict(acc))
+            found.append(dict(acc))
             return
         tok = route[i]
         if tok[0] == "lit":
-            if path.startswith(tok[1], pos):
-                rec(i + 1, pos + len(tok[1]), acc)
+            rec(i + 1, pos + len(tok[1]), acc)
             return
         name, typ = tok[1], tok[2]
-        # a placeholder directly followed by a literal can only end where that literal starts
-        for end in range(pos, len(path) + 1):
-            s = path[pos:end]
-            if in_language(typ, s):
-                acc[name] = s
-                rec(i + 1, end, acc)
-                del acc[name]
+        nxt = viable[i + 1]
+        for lo, hi in ix.intervals(typ, pos):
+            for end in range(lo, hi + 1):
+                if nxt[end]:
+                    if len(found) >= limit:
+                        return
+                    acc[name] = path[pos:end]
+                    rec(i + 1, end, acc)
+                    del acc[name]
 
     rec(0, 0, {})
     return found
@@ -115,12 +191,24 @@ def expected(routes: Sequence[Sequence[Sequence[Any]]], path: str) -> Tuple[Opti
 
 def admits(route: Sequence[Sequence[Any]], path: str, params: Dict[str, Any]) -> bool:
     """Is there a decomposition of the whole path whose converted placeholder values are exactly
-    `params` (same types)?  Directed search, so adjacent placeholders do not blow up."""
+    `params` (same types)?  Directed, memoised search: adjacent placeholders do not blow up."""
     names = [tok[1] for tok in route if tok[0] == "p"]
     if set(names) != set(params):
         return False
+    ix = _Index(path)
+    viable = _viable(route, ix)
+    if not viable[0][0]:
+        return False
+    memo: Dict[Tuple[int, int], bool] = {}
 
     def rec(i: int, pos: int) -> bool:
+        key = (i, pos)
+        if key in memo:
+            return memo[key]
+        memo[key] = out = _rec(i, pos)
+        return out
+
+    def _rec(i: int, pos: int) -> bool:
         if i == len(route):
             return pos == len(path)
         tok = route[i]
@@ -128,11 +216,20 @@ def admits(route: Sequence[Sequence[Any]], path: str, params: Dict[str, Any]) ->
             return path.startswith(tok[1], pos) and rec(i + 1, pos + len(tok[1]))
         name, typ = tok[1], tok[2]
         want = params[name]
-        for end in range(pos, len(path) + 1):
-            s = path[pos:end]
-            if in_language(typ, s):
+        nxt = viable[i + 1]
+        if (typ or "str") in ("str", "any"):
+            if type(want) is not str:
+                return False
+            end = pos + len(want)
+            if end > len(path) or path[pos:end] != want or not in_language(typ, want):
+                return False
+            return nxt[end] and rec(i + 1, end)
+        for lo, hi in ix.intervals(typ, pos):
+            for end in range(lo, hi + 1):
+                if not nxt[end]:
+                    continue
                 try:
-                    v = convert(typ, s)
+                    v = convert(typ, path[pos:end])
                 except ValueError:
                     continue
                 if type(v) is type(want) and v == want and rec(i + 1, end):
